@@ -1,12 +1,12 @@
 #!/bin/sh
 # usage: tools/seed_all.sh [tier] [props]   -- verify + detect every seeded change (3 at a time)
-tier="${1:-quick}"; props="${2:-own}"
+tier="${1:-quick}"; props="${2:-own}"; budget="${3:-}"; noverify="${4:-}"
 cd /verif
 for d in seeded/*/; do
   d=${d%/}
   [ -f "$d/patch.diff" ] || continue
-  ( /venv/bin/python tools/seeded.py verify "$d" 2>&1 | grep -v "^WARNING" | cut -c1-200
-    /venv/bin/python tools/seeded.py detect "$d" --tier "$tier" --props "$props" --jobs 2 2>&1 | grep -v "^WARNING" | cut -c1-260 ) &
+  ( [ -z "$noverify" ] && /venv/bin/python tools/seeded.py verify "$d" 2>&1 | grep -v "^WARNING" | cut -c1-200
+    /venv/bin/python tools/seeded.py detect "$d" --tier "$tier" --props "$props" --jobs 2 ${budget:+--budget $budget} 2>&1 | grep -v "^WARNING" | cut -c1-260 ) &
   while [ $(jobs | grep -c Running) -ge 3 ]; do sleep 2; done
 done
 wait
